@@ -147,6 +147,35 @@ def whole_rules():
     return out
 
 
+# rejected constructs that span several lines (the end line is part of the location)
+MULTILINE = ["#program always.\n{ p'(1,\n 2) }.\n", "#program always.\n&tel { a\n -> b }.\n", "#program always.\nq :- &tel {\n a }.\n", "#program always.\n'p(1,\n2).\n",
+             "#program always.\nq :- not p'(1,\n\n 2), r.\n", "#program always.\n&tel { a,\n b }.\n", "#program always.\n&tel { < \n\n a }.\n", "#program always.\nq ;\n _p(1\n,2).\n",
+             "#program always.\n:- not &tel { a,\n b }.\n", "#program always.\nq :- &del { a\n .>? b }.\n"]
+LOC_RE = re.compile(r'(<string>:\d+:\d+(?:-[\d:]+)?)\s*$')
+
+
+def located(ctx, items):
+    """items: (text, diagnostic).  None where the location at the end of the diagnostic is the rendering of a node location of the text, else what is wrong"""
+    locs = ctx.impl().run([{'cmd': 'locations', 'text': t} for t, _ in items], timeout=30)
+    lines, spans = [], []
+    for l in locs:
+        ls = [x for x in (l.get('locs') or []) if x[0] == '<string>' and x[3] == '<string>']
+        spans.append((len(lines), len(lines) + len(ls)))
+        lines += ['loc 0 %d %d 0 %d %d' % (x[1], x[2], x[4], x[5]) for x in ls]
+    rend = ctx.model().run(lines, timeout=60) if lines else []
+    out = []
+    for (t, msg), (i, j) in zip(items, spans):
+        m = LOC_RE.search(msg)
+        names = {(r or '').replace('F0', '<string>') for r in rend[i:j]}
+        if not m:
+            out.append('diagnostic carries no source location: %s' % msg)
+        elif m.group(1) not in names:
+            out.append('the location %s of the diagnostic %r is not the location of any construct of the text (locations of the syntax tree, rendered by Model/Loc.str_location: %s)' % (m.group(1), msg, sorted(names)[:12]))
+        else:
+            out.append(None)
+    return out
+
+
 def run(ctx):
     rows = table(ctx)
     impl = ctx.impl().run([{'cmd': 'transform', 'texts': [r['text']]} for r in rows], timeout=20)
@@ -202,7 +231,31 @@ def run(ctx):
         wstat[r_['status']] = wstat.get(r_['status'], 0) + 1
         if r_['status'] not in ('agree', 'agree-rejected'):
             cex.append({'key': 'c11:rule:' + r_['program'].replace('\n', ' '), 'what': 'transform() and Model/FutTransform.transform_program differ: %s' % r_.get('what'), 'input': {'transform_rules': p_, 'program': r_['program']}})
-    cov = {'evaluations': len(rows) + len(treqs) + len(wr), 'whole_rule_status': wstat, 'distinct_nontrivial': len(rows) + len(treqs), 'exhaustive': True,
+    # the location named in the diagnostic.  (1) str_location of /repo against Model/Loc.str_location on every pair of positions of a small domain
+    # and on random ones; (2) for rejected inputs - every rejected row of the table and constructs that span several lines - the location in the message
+    # is the rendering (by the model) of the location of a node of the clingo AST of the text (found with the parser of clingo alone)
+    lrng = ctx.rng('locations')
+    dom = [(f, l, c) for f in (0, 1) for l in (1, 2, 3) for c in (1, 2, 10)]
+    lcases = [(b, e) for b in dom for e in dom] + [((lrng.randint(0, 2), lrng.randint(1, 400), lrng.randint(1, 120)), (lrng.randint(0, 2), lrng.randint(1, 400), lrng.randint(1, 120))) for _ in range(300)]
+    la = ctx.impl().run([{'cmd': 'strloc', 'locs': [[['F%d' % b[0], b[1], b[2]], ['F%d' % e[0], e[1], e[2]]] for b, e in lcases]}], timeout=30)[0]
+    lm = ctx.model().run(['loc %d %d %d %d %d %d' % (b + e) for b, e in lcases], timeout=30)
+    for (b, e), x, y in zip(lcases, la.get('out') or [None] * len(lcases), lm):
+        if x != y:
+            cex.append({'key': 'c11:strloc:%s:%s' % (b, e), 'what': 'str_location renders begin %s end %s (file, line, column) as %r, Model/Loc.str_location as %r' % (b, e, x, y), 'input': {'strloc': [list(b), list(e)]}})
+            break
+    ltexts = [(r['text'], a.get('msg', '')) for r, a in zip(rows, impl) if classify(a).startswith('reject')][::7 if ctx.quick else 1]
+    mres = ctx.impl().run([{'cmd': 'transform', 'texts': [t]} for t in MULTILINE], timeout=20)
+    for t, a in zip(MULTILINE, mres):
+        if a.get('type') != 'RuntimeError':
+            cex.append({'key': 'c11:multiline:' + t.replace('\n', ' '), 'what': 'a rejected construct written over several lines is %s' % ('accepted' if a.get('status') == 'ok' else a.get('type')), 'input': {'located': t}})
+        else:
+            ltexts.append((t, a.get('msg', '')))
+    nloc = 0
+    for (t, msg), bad in zip(ltexts, located(ctx, ltexts)):
+        nloc += 1
+        if bad:
+            cex.append({'key': 'c11:location:' + t.replace('\n', ' '), 'what': bad, 'input': {'located': t}})
+    cov = {'evaluations': len(rows) + len(treqs) + len(wr) + len(lcases) + nloc, 'str_location_cases': len(lcases), 'diagnostics_with_location_checked': nloc, 'whole_rule_status': wstat, 'distinct_nontrivial': len(rows) + len(treqs), 'exhaustive': True,
            'rule': 'exhaustive: %d syntactic positions x %d atom forms x %d parts through transformers.transform, compared with the extracted Model/Ctx.decide (class, rewritten atom, '
                    'look-ahead part, location in the diagnostic); plus %d theory-atom placements x 2 parts; every case is distinct and decides acceptance' % (
                        len(POSITIONS), len(FORMS), len(PARTS if not ctx.quick else ['always', 'final']), len(THEORY)),
@@ -219,6 +272,13 @@ def replay(ctx, payload):
         a = ctx.impl().run([req])[0]
         got = 'accept' if a.get('status') == 'ok' else ('reject' if a.get('type') == 'RuntimeError' else 'internal')
         return got != exp.split('-')[0]
+    if 'strloc' in inp:
+        b, e = inp['strloc']
+        x = ctx.impl().run([{'cmd': 'strloc', 'locs': [[['F%d' % b[0], b[1], b[2]], ['F%d' % e[0], e[1], e[2]]]]}])[0].get('out', [None])[0]
+        return x != ctx.model().run(['loc %d %d %d %d %d %d' % tuple(b + e)])[0]
+    if 'located' in inp:
+        a = ctx.impl().run([{'cmd': 'transform', 'texts': [inp['located']]}])[0]
+        return a.get('type') != 'RuntimeError' or located(ctx, [(inp['located'], a.get('msg', ''))])[0] is not None
     if 'transform_rules' in inp:
         import ftstruct
         return ftstruct.compare(ctx, [inp['transform_rules']])[0]['status'] not in ('agree', 'agree-rejected')
